@@ -33,7 +33,44 @@ def entries(prog, scalar):
     if key in _ENT_CACHE:
         return _ENT_CACHE[key]
     from . import terms
-    fn = get_list_fn(prog, scalar)
+    r = None
+    try:
+        fn = get_list_fn(prog, scalar)
+        if fn.params and 'std::vector<' in str(fn.params[0].get('t', '')):
+            r = _entries_from_list_function(prog, scalar, fn)
+    except AnalysisBroken:
+        r = None
+    if r is None:
+        r = _entries_from_init(prog, scalar)
+    _ENT_CACHE[key] = r
+    return r
+
+
+def _entries_from_init(prog, scalar):
+    """fallback when there is no `get_list_mms(vector&)`: the catalogue is what masa_init can construct - the objects created,
+    in order, on the path of init_mms on which no candidate matches (every candidate is constructed and examined)"""
+    from . import ownership, terms
+    rq = [r_ for r_ in prog.records if r_.endswith('MasterMS<%s>' % scalar)]
+    if len(rq) != 1:
+        raise AnalysisBroken('MasterMS<%s> not found' % scalar)
+    im = [f for f in prog.methods_of(rq[0]) if f.n == 'init_mms']
+    if len(im) != 1:
+        raise AnalysisBroken('neither get_list_mms(vector&) nor MasterMS<%s>::init_mms found' % scalar)
+    E, facts = ownership.analyse(prog, im[0], scalar)
+    best = max(facts, key=lambda F: len(F.created)) if facts else None
+    if best is None or not best.created:
+        raise AnalysisBroken('init_mms<%s> constructs no catalogue object on any path' % scalar)
+    out = [(ty, {'l': loc, 'k': 'new', 'ty': ty}, None) for ty, loc in best.created]
+    fn = im[0]
+    try:
+        fn = get_list_fn(prog, scalar)
+    except AnalysisBroken:
+        pass
+    return (fn, out, [])
+
+
+def _entries_from_list_function(prog, scalar, fn):
+    from . import terms
     E = terms.Evaluator(prog, scalar=scalar, noreturn=('masa_exit',))
     E.vecmodel = True
     E.unroll_paths = True
@@ -66,9 +103,7 @@ def entries(prog, scalar):
             other.append({'k': 'other', 'l': e[2], 'what': 'side effect %s' % e[0]})
     if E.trace.globals_written or E.trace.static_locals and any(True for n_, l_ in E.trace.static_locals if False):
         other.append({'k': 'other', 'l': fn.where, 'what': 'writes a global'})
-    r = (fn, out, other)
-    _ENT_CACHE[key] = r
-    return r
+    return (fn, out, other)
 
 
 def short(cls):
